@@ -413,3 +413,53 @@ pub mod listxattr {
     h!(c01_trunc, bytes_reply::<{ K_GETXATTR_IN_SIZE - 1 }, 32, 3>(1, 23, false));
     h!(c01_nospace, bytes_reply::<{ K_GETXATTR_IN_SIZE }, 20, 3>(1, 23, false));
 }
+
+// ---------------------------------------------------------------- notifications
+/// notify_inval_entry / notify_inval_inode / notify_resend: one emission, length = size of the
+/// message, unique 0, code in the error field, arguments at the kernel's offsets.
+pub fn notify(which: u8) {
+    use crate::transport::{FuseDevWriter, ghost};
+    let server = new_server();
+    let mut wbuf = [0u8; 64];
+    let w = FuseDevWriter::<()>::new(7, &mut wbuf).unwrap();
+    ghost::reset(false);
+    let (a, b, c): (u64, u64, u64) = (kani::any(), kani::any(), kani::any());
+    let name = std::ffi::CStr::from_bytes_with_nul(b"abc\0").unwrap();
+    let r = match which {
+        0 => server.notify_inval_entry(w, a, name).map(|_| ()),
+        1 => server.notify_inval_inode(w, a, b, c).map(|_| ()),
+        _ => server.notify_resend(w),
+    };
+    assert!(r.is_ok(), "[C03] notification is sent");
+    unsafe {
+        assert!(ghost::DEV.events == 1, "[C03] a notification is one device write");
+        let bts = &ghost::DEV.bytes;
+        let n = ghost::DEV.len;
+        assert!(get32(bts, 0) as usize == n, "[C03] notification length field equals its size");
+        assert!(get64(bts, 8) == 0, "[C03] notifications carry unique 0");
+        match which {
+            0 => {
+                assert!(get32(bts, 4) == 3, "[C03] FUSE_NOTIFY_INVAL_ENTRY code");
+                assert!(n == 16 + K_NOTIFY_INVAL_ENTRY_OUT_SIZE + 4, "[C03] inval_entry size = header + struct + name + NUL");
+                assert!(get64(bts, 16 + K_NOTIFY_INVAL_ENTRY_OUT__PARENT) == a && get32(bts, 16 + K_NOTIFY_INVAL_ENTRY_OUT__NAMELEN) == 3, "[C03] inval_entry parent/namelen");
+                assert!(bts[32] == b'a' && bts[33] == b'b' && bts[34] == b'c' && bts[35] == 0, "[C03] inval_entry name");
+            }
+            1 => {
+                assert!(get32(bts, 4) == 2, "[C03] FUSE_NOTIFY_INVAL_INODE code");
+                assert!(n == 16 + K_NOTIFY_INVAL_INODE_OUT_SIZE, "[C03] inval_inode size");
+                assert!(get64(bts, 16 + K_NOTIFY_INVAL_INODE_OUT__INO) == a && get64(bts, 16 + K_NOTIFY_INVAL_INODE_OUT__OFF) == b && get64(bts, 16 + K_NOTIFY_INVAL_INODE_OUT__LEN) == c, "[C03] inval_inode ino/off/len");
+            }
+            _ => {
+                assert!(get32(bts, 4) == 7 && n == 16, "[C03] FUSE_NOTIFY_RESEND is a bare header with code 7");
+            }
+        }
+    }
+    kani::cover!(true, "reached");
+    std::mem::forget(server);
+}
+pub mod notify_h {
+    use super::*;
+    h!(c03_inval_entry, notify(0));
+    h!(c03_inval_inode, notify(1));
+    h!(c03_resend, notify(2));
+}
